@@ -91,7 +91,8 @@ def run_pyvc_check(prop, tier, seed, ptasks, assumptions, checker_cmd, extra_cov
                 continue
             model = n["models"][0]
             rec = {"property": prop, "obligation": name, "where": n["where"], "kind": n["kind"], "solver": n["solvers"],
-                   "model": model, "deciding": bool(t and t.deciding)}
+                   "model": model, "deciding": bool(t and t.deciding),
+                   "replay_kind": t.replay_kind if t else None}
             confirmed = None
             if t is not None and t.replay_kind and model is not None:
                 rp = native_replay(prop, t.replay_kind, {"obligation": name, "model": model})
